@@ -10,11 +10,11 @@ import (
 
 // wireExpr serialises a Go AST into the flat prefix encoding read by Kvql.Expr.ofWire
 // (see lean/Kvql/Model/Expr.lean).  An alias reference carries a copy of its target; a
-// reference that leads back into itself is the marker Y.
+// reference whose target is already being expanded (a cyclic alias) is the marker Y.
 func wireExpr(e kvql.Expression) string {
 	var toks []string
-	var walk func(e kvql.Expression, onPath map[*kvql.FieldReferenceExpr]bool)
-	walk = func(e kvql.Expression, onPath map[*kvql.FieldReferenceExpr]bool) {
+	var walk func(e kvql.Expression, onPath map[kvql.Expression]bool)
+	walk = func(e kvql.Expression, onPath map[kvql.Expression]bool) {
 		switch x := e.(type) {
 		case *kvql.BinaryOpExpr:
 			toks = append(toks, "B", fmt.Sprint(x.Pos), fmt.Sprint(int(x.Op)))
@@ -37,11 +37,13 @@ func wireExpr(e kvql.Expression) string {
 		case *kvql.NameExpr:
 			toks = append(toks, "I", fmt.Sprint(x.Pos), hxs(x.Data))
 		case *kvql.FieldReferenceExpr:
-			if onPath[x] || len(onPath) > 64 {
+			// a cycle is detected by the identity of the *target* node (the select field the
+			// reference points at): entering a target that is already being expanded is Y
+			if onPath[x.FieldExpr] || len(onPath) > 64 {
 				toks = append(toks, "Y")
 				return
 			}
-			np := map[*kvql.FieldReferenceExpr]bool{x: true}
+			np := map[kvql.Expression]bool{x.FieldExpr: true}
 			for k := range onPath {
 				np[k] = true
 			}
@@ -70,6 +72,6 @@ func wireExpr(e kvql.Expression) string {
 			toks = append(toks, fmt.Sprintf("?%T", e))
 		}
 	}
-	walk(e, map[*kvql.FieldReferenceExpr]bool{})
+	walk(e, map[kvql.Expression]bool{})
 	return strings.Join(toks, ",")
 }
